@@ -183,6 +183,17 @@ fn pair(ctx: &mut Ctx, a: &Op, b: &Op, panics: bool, bigint: bool) {
                 Out::Ret(Some(v)) => expect_int(ctx, "BigInt checked_sub", &iargs, Out::Ret(v), &want_sub),
                 other => ctx.viol(format!("BigInt checked_sub {}", iargs().join(" ")), "checked_sub did not return Some", iargs(), want_sub.to_hex(), format!("{:?}", other)),
             }
+            // trait forms (separate impls; method syntax resolves to the inherent methods)
+            let r = call(ctx, || num_traits::CheckedAdd::checked_add(x, y));
+            match r {
+                Out::Ret(Some(v)) => expect_int(ctx, "CheckedAdd for BigInt", &iargs, Out::Ret(v), &want_add),
+                other => ctx.viol(format!("CheckedAdd for BigInt {}", iargs().join(" ")), "checked_add did not return Some", iargs(), want_add.to_hex(), format!("{:?}", other)),
+            }
+            let r = call(ctx, || num_traits::CheckedSub::checked_sub(x, y));
+            match r {
+                Out::Ret(Some(v)) => expect_int(ctx, "CheckedSub for BigInt", &iargs, Out::Ret(v), &want_sub),
+                other => ctx.viol(format!("CheckedSub for BigInt {}", iargs().join(" ")), "checked_sub did not return Some", iargs(), want_sub.to_hex(), format!("{:?}", other)),
+            }
         }
     }
     // borrowed operands must be unchanged
